@@ -151,7 +151,7 @@ def run(chk, facts_dir, tier):
         chk.ok("R17.2", "COMPRESSION_FLAG and LENGTH_MASK partition the length word (%d uses)" % sum(masks.values()), "crates/seglog/src/lib.rs")
     else:
         chk.fail("R17.2", "seglog", "mask-constants", "COMPRESSION_FLAG and LENGTH_MASK no longer partition the 32-bit length word", None)
-    chk.floor("R17.2-masks", sum(masks.values()), 8)
+    chk.floor("R17.2-masks", sum(masks.values()), 5)
 
     # ---------------- R17.4 bounds
     for path in READERS[:2] + ("seglog::read::Reader::<H>::read_bytes",):
